@@ -15,6 +15,7 @@ package multinode
 
 import (
 	"context"
+	"encoding/json"
 	"strings"
 	"sync"
 	"sync/atomic"
@@ -89,11 +90,14 @@ func (s *Service) submitAttestations(ctx context.Context,
 	_, address := s.serviceInfo(ctx, submitter)
 	started := time.Now()
 	_, err := util.Scatter(len(attestations), int(s.processConcurrency), func(offset int, entries int, _ *sync.RWMutex) (interface{}, error) {
-		return nil, submitter.SubmitAttestations(ctx, attestations[offset:offset+entries])
+		// Each batch is judged on its own error, so that an allowable error
+		// for one batch cannot hide a real error for another.
+		err := submitter.SubmitAttestations(ctx, attestations[offset:offset+entries])
+		if err != nil {
+			err = s.handleAttestationsError(ctx, submitter, err)
+		}
+		return nil, err
 	})
-	if err != nil {
-		err = s.handleAttestationsError(ctx, submitter, err)
-	}
 
 	s.clientMonitor.ClientOperation(address, "submit attestations", err == nil, time.Since(started))
 	if err != nil {
@@ -112,20 +116,20 @@ func (s *Service) handleAttestationsError(ctx context.Context,
 ) error {
 	serverType, _ := s.serviceInfo(ctx, submitter)
 	switch {
-	case serverType == "lighthouse" && strings.Contains(err.Error(), "PriorAttestationKnown"):
+	case serverType == "lighthouse" && onlyFailureIs(err.Error(), "PriorAttestationKnown"):
 		// Lighthouse rejects duplicate attestations.  It is possible that an attestation we sent
 		// to another node already propagated to this node, so ignore the error.
 		s.log.Trace().Msg("Lighthouse node already knows about attestation; ignored")
 		// Not an error as far as we are concerned, so clear it.
 		err = nil
-	case serverType == "lighthouse" && strings.Contains(err.Error(), "UnknownHeadBlock"):
+	case serverType == "lighthouse" && onlyFailureIs(err.Error(), "UnknownHeadBlock"):
 		// Lighthouse rejects an attestation for a block that is not its current head.  It is possible
 		// that the node is just behind, and we can't do anything about it anyway at this point having
 		// already signed an attestation for this slot, so ignore the error.
 		s.log.Debug().Err(err).Msg("Lighthouse node does not know head block; rejected")
 		// Not an error as far as we are concerned, so clear it.
 		err = nil
-	case serverType == "nimbus" && strings.Contains(err.Error(), "Attempt to send attestation for unknown target"):
+	case serverType == "nimbus" && onlyFailureIs(err.Error(), "Attempt to send attestation for unknown target"):
 		// Nimbus rejects an attestation for a block when it does not know the target.  It is possible
 		// that the node is just behind, and we can't do anything about it anyway at this point having
 		// already signed an attestation for this slot, so ignore the error.
@@ -135,4 +139,28 @@ func (s *Service) handleAttestationsError(ctx context.Context,
 	}
 
 	return err
+}
+
+// onlyFailureIs returns true if the error contains the given text and, where the error
+// carries a list of individual failures, every one of those failures contains it.
+func onlyFailureIs(errorStr string, text string) bool {
+	if !strings.Contains(errorStr, text) {
+		return false
+	}
+	jsonIndex := strings.Index(errorStr, "{")
+	if jsonIndex == -1 {
+		return true
+	}
+	resp := lhErrorResponse{}
+	if err := json.Unmarshal([]byte(errorStr[jsonIndex:]), &resp); err != nil || len(resp.Failures) == 0 {
+		// Not a list of failures, so the text describes the error as a whole.
+		return true
+	}
+	for _, failure := range resp.Failures {
+		if !strings.Contains(failure.Message, text) {
+			return false
+		}
+	}
+
+	return true
 }
